@@ -323,8 +323,12 @@ pub fn write_float_nonscientific<const FORMAT: u128>(
     // may have been truncated.
     // Won't panic since `integer_count < digits.len()` since `digit_count <
     // digits.len()`.
+    // NOTE: The fraction digits may all be zeros after truncation, in which
+    // case there is no fraction, just like for an integral float.
     let digits = &digits[integer_count..];
     let fraction_count = digit_count.saturating_sub(integer_length);
+    let fraction_count = fraction_count - rtrim_char_count(&digits[..fraction_count], b'0');
+    digit_count = digit_count.min(integer_length + fraction_count);
     if fraction_count > 0 {
         // Need to write additional fraction digits.
         let src = &digits[..fraction_count];
@@ -343,6 +347,12 @@ pub fn write_float_nonscientific<const FORMAT: u128>(
     }
 
     // Determine if we need to add more trailing zeros.
+    // NOTE: The leading zeros of a float below 1 are not significant digits.
+    let leading_zeros = match ltrim_char_count(&buffer[start..initial_cursor + fraction_count], b'0') {
+        count if count >= digit_count => 0,
+        count => count,
+    };
+    let digit_count = digit_count - leading_zeros;
     let exact_count = shared::min_exact_digits(digit_count, options);
 
     // Write any trailing digits to the output.
